@@ -6,6 +6,7 @@ mod compile;
 mod names;
 mod pkg;
 mod resolve;
+mod sep;
 
 fn main() {
     let args: Vec<String> = std::env::args().collect();
@@ -32,6 +33,13 @@ fn main() {
                 let line = line.unwrap();
                 let v: serde_json::Value = serde_json::from_str(&line).unwrap();
                 writeln!(out, "{}", pkg::discover_case(&v)).unwrap();
+            }
+        }
+        "sep" => {
+            for line in stdin.lock().lines() {
+                let line = line.unwrap();
+                let v: serde_json::Value = serde_json::from_str(&line).unwrap();
+                writeln!(out, "{}", sep::sep_case(&v)).unwrap();
             }
         }
         "resolve" => {
